@@ -21,7 +21,8 @@ def random_schema(draw, backend: str, tag: str = "r"):
     classes = {}
     enums = [Enum(f"{ns}.K0", "Kind", ("A", "B", "C"), in_class=names[0])]
     if _yes(draw, 1, 2):
-        enums.append(Enum("topns", "Mode", ("X", "Y", "Z"), in_class=None))
+        # a namespace-level enum, one to four namespace levels deep
+        enums.append(Enum(draw(st.sampled_from(["topns.inner.deep", "topns", "topns.inner", "topns.a.b.c"])), "Mode", ("X", "Y", "Z"), in_class=None))
     for i, cname in enumerate(names):
         ms = []
         for k in range(draw(st.sampled_from([3, 2]))):
@@ -35,7 +36,7 @@ def random_schema(draw, backend: str, tag: str = "r"):
             ms.append(M("kind", "num", "int", declared=True, enum=f"{ns}.K0.Kind", tree_type="int"))
             ms.append(M("kindCode", "echo", args=(f"enum:{ns}.K0.Kind",), echo="enum10"))
             if len(enums) > 1:
-                ms.append(M("mode", "num", "int", declared=True, enum="topns.Mode", tree_type="int"))
+                ms.append(M("mode", "num", "int", declared=True, enum=enums[1].dotted, tree_type="int"))
         for j in range(i + 1, ncls):
             if _yes(draw, 2, 3):
                 form = draw(st.sampled_from(["ptr-deref1", "ptr", "ptrptr", "val", "val-deref1", "ptr-deref2", "ptr"]))
